@@ -61,6 +61,27 @@ def execute(con, pre, main):
   return rows, cols
 
 
+def execute_workflow(prog, predicates, con):
+  """Runs the predicates as `tools/run_in_terminal.py` does: compile each, then
+  concertina_lib.ExecuteLogicaProgram over the executions with a SQLite runner."""
+  import contextlib, io
+  with contextlib.redirect_stdout(io.StringIO()):
+    from common import concertina_lib
+  executions = []
+  for p in predicates:
+    prog.FormattedPredicateSql(p)
+    executions.append(prog.execution)
+
+  def runner(sql, engine, is_final):
+    if is_final:
+      cur = con.execute(sql)
+      return [d[0] for d in cur.description], cur.fetchall()
+    con.executescript(sql)
+  with contextlib.redirect_stdout(io.StringIO()):
+    res = concertina_lib.ExecuteLogicaProgram(executions, runner, 'sqlite', display_mode='silent')
+  return res
+
+
 def bags(domain_rows, max_rows):
   """All multisets (as sorted tuples of rows) of at most max_rows rows."""
   for n in range(max_rows + 1):
@@ -131,6 +152,8 @@ def run_schema(schema, tier, seed=0):
     cap = schema.get('cap', {}).get(tier, 400 if tier == 'quick' else 6000)
     prog = compile_program(text, user_flags=schema.get('flags'))
     compiled = {}
+    if schema.get('workflow'):
+      return run_workflow_schema(schema, prog, res, arities, domain, max_rows, cap, seed)
     for p in schema['spec']:
       compiled[p] = statements_for(prog, p)
       if schema.get('sql_check'):
@@ -193,4 +216,38 @@ def run_schema(schema, tier, seed=0):
     res['violation'] = {'predicate': None, 'db': None,
                         'detail': 'compilation failed: %s: %s' % (name, str(e)[:300]),
                         'trace': traceback.format_exc()[-800:]}
+  return res
+
+
+def run_workflow_schema(schema, prog, res, arities, domain, max_rows, cap, seed):
+  """Schema contract for programs executed as a workflow (iterative recursion, @Ground)."""
+  preds = list(schema['spec'])
+  for db, exhaustive in databases(arities, domain, max_rows, schema.get('domains'), cap, seed):
+    res['exhaustive'] = res['exhaustive'] and exhaustive
+    groups = [[p] for p in preds] + ([preds] if schema.get('together') and len(preds) > 1 else [])
+    for group in groups:
+      con = connect()
+      load_tables(con, db, arities, schema.get('colnames'))
+      try:
+        out = execute_workflow(prog, group, con)
+      except Exception as e:
+        res['violation'] = {'predicate': ','.join(group), 'db': db, 'detail': 'workflow execution failed: %s: %s' % (
+            type(e).__name__, str(e)[:300]), 'sql': None}
+        return res
+      for p in group:
+        cols, rows = out[p]
+        expected = schema['spec'][p](db)
+        res['evaluations'] += 1
+        if expected:
+          res['nontrivial'] += 1
+        if canon(rows) != canon(expected):
+          res['violation'] = {'predicate': p, 'db': db, 'asked_together': group,
+                              'detail': 'rows %r, contract (spec) says %r' % (
+                                  sorted(map(tuple, rows), key=repr)[:14], sorted(map(tuple, expected), key=repr)[:14]),
+                              'sql': None}
+          return res
+        if res['sample'] is None and expected:
+          res['sample'] = {'schema': schema['name'], 'predicate': p, 'db': db,
+                           'rows': sorted(map(tuple, rows), key=repr)[:6]}
+      con.close()
   return res
